@@ -33,6 +33,7 @@ func init() {
 			need(m, &out, "adaptation_only_packets_in_streams", 500)
 			need(m, &out, "long_skipped_runs", 8)
 			need(m, &out, "giant_unit_streams", 12)
+			need(m, &out, "retained_groups_rechecked", 1000)
 			need(m, &out, "straddle_units_under_a_parser", 300)
 			need(m, &out, "streams_with_unparsable_packets", 100)
 			need(m, &out, "parser_runs_on_damaged_streams", 200)
@@ -225,8 +226,89 @@ func straddleParserCase(c *mon.Ctx, idx int64, r *rand.Rand, kind refts.TableKin
 	}
 }
 
+// retainedGroupsCase: a PacketsParser that keeps the slices it is handed (an observer that looks at its groups when the stream is
+// over). Units on the PAT PID and a PMT PID that are complete at once are followed by packets of every kind on the same PID — the
+// next unit, the tail of a unit whose start was lost, a duplicate, stuffing: at the end every group is still the unit it was when it
+// was handed over.
+func retainedGroupsCase(c *mon.Ctx, idx int64, r *rand.Rand) {
+	var pk []*astits.Packet
+	cc := map[uint16]uint8{}
+	add := func(pid uint16, pusi bool, payload []byte, tail bool) {
+		pk = append(pk, gen.BuildPacket(pid, cc[pid], pusi, payload, nil, tail))
+		cc[pid]++
+	}
+	unit := func(pid uint16, u *gen.Unit) {
+		for off := 0; off < len(u.Payload); off += 184 {
+			add(pid, off == 0, u.Payload[off:min(off+184, len(u.Payload))], true)
+		}
+	}
+	unit(0, gen.PATFor(r, 0x1000))
+	for k := 0; k < 3+r.IntN(5); k++ {
+		pid := []uint16{0x1000, 0x1000, 0}[r.IntN(3)]
+		kind := refts.KindPMT
+		if pid == 0 {
+			kind = refts.KindPAT
+		}
+		sec := gen.SimpleSection(r, kind, 1+k, r.IntN(100))
+		if pid == 0 {
+			sec.Syntax.Data.PAT.Programs = append(sec.Syntax.Data.PAT.Programs, &astits.PATProgram{ProgramNumber: 1, ProgramMapID: 0x1000})
+		}
+		unit(pid, gen.NewPSIUnit(r, pid, 1+k, []*astits.PSISection{sec}, 0, false))
+		switch r.IntN(4) {
+		case 0: // the tail of a unit whose first packet was lost
+			cc[pid] += uint8(1 + r.IntN(3))
+			for q := 0; q < 1+r.IntN(3); q++ {
+				add(pid, false, gen.Bytes(r, 184), false)
+			}
+		case 1: // stuffing-only continuation
+			add(pid, false, bytes.Repeat([]byte{0xff}, 184), false)
+		case 2: // a PES PID in between
+			add(0x100, true, append([]byte{0, 0, 1, 0xe0, 0, 0, 0x80, 0, 0}, gen.Bytes(r, 100)...), false)
+		}
+	}
+	s := &gen.Stream{Packets: pk}
+	s.Encode()
+	type kept struct {
+		ps  []*astits.Packet
+		sig string
+	}
+	sig := func(ps []*astits.Packet) string {
+		o := ""
+		for _, p := range ps {
+			o += fmt.Sprintf("%x/%d/%v/%x;", p.Header.PID, p.Header.ContinuityCounter, p.Header.PayloadUnitStartIndicator, mon.HashBytes("p", p.Payload))
+		}
+		return o
+	}
+	var groups []kept
+	cfg := baseCfg("data")
+	cfg.Parser = func(ps []*astits.Packet) ([]*astits.DemuxerData, bool, error) {
+		groups = append(groups, kept{ps, sig(ps)})
+		return nil, false, nil
+	}
+	run := RunDemux(s.Bytes, cfg)
+	c.Count("retained_group_streams")
+	c.Case(mon.HashBytes("c19keep", s.Bytes), true)
+	data := map[string]any{"stream": mon.Hex(s.Bytes, 1500)}
+	if run.Panic != "" {
+		c.Violate("C19/parser/panic", "retained", idx, run.Panic, data)
+		return
+	}
+	for k, g := range groups {
+		if now := sig(g.ps); now != g.sig {
+			c.Violate("C19/parser/group-changed-after-it-was-handed-over", "retained", idx, fmt.Sprintf("group %d (pid/counter/unit-start/payload per packet) was %s when the parser got it and is %s at the end of the stream", k, g.sig, now), data)
+			return
+		}
+		c.Count("retained_groups_rechecked")
+	}
+}
+
 func runC19(c *mon.Ctx) {
 	longRuns(c)
+	for i := int64(0); i < c.Pick(400, 10000); i++ {
+		if c.Mine("retained", i) {
+			retainedGroupsCase(c, i, c.Rng("retained", i))
+		}
+	}
 	for i := int64(0); i < 2*184; i++ {
 		if before := int(i % 184); before != 0 && c.Mine("header-straddle", i) {
 			straddleParserCase(c, i, c.Rng("header-straddle", i), []refts.TableKind{refts.KindPAT, refts.KindPMT}[i/184], before)
